@@ -86,8 +86,9 @@ def _dy(rng: random.Random, lo: float, hi: float, den: int = 64) -> float:
 
 def _mesh_spec(rng: random.Random) -> dict:
     nx, ny, nz = rng.randint(1, 3), rng.randint(1, 2), rng.randint(1, 2)
+    far = rng.random() < 0.3  # plant / georeferenced coordinates: nothing may depend on the distance from the origin
     def axis(n):
-        xs = [_dy(rng, -2, 2)]
+        xs = [_dy(rng, -2, 2) + (rng.choice([-1, 1]) * _dy(rng, 400, 1500, 1) if far else 0.0)]
         for _ in range(n):
             xs.append(xs[-1] + _dy(rng, 0.5, 1.5))
         return xs
@@ -107,7 +108,9 @@ def _mesh_spec(rng: random.Random) -> dict:
 _AXES = [(0, 0, 1), (1, 0, 0), (0, 1, 0), (2, 3, 6), (1, 4, 8), (2, -6, 3), (-4, 4, 7), (3, 4, 0), (0, -3, 4)]
 
 
-def _round_spec(rng: random.Random, typ: str, origin: List[float]) -> dict:
+def _round_spec(rng: random.Random, typ: str, origin: List[float], small: bool = False) -> dict:
+    """`small`: a thin pipe far from the origin (cross-section of 1/64 .. 1/32 at coordinates of 400 .. 1500), so that
+    the spacing of the sketch points is far below 1e-5 of the coordinates."""
     a = rng.choice(_AXES)
     n = math.sqrt(sum(x * x for x in a))
     axis = [x / n for x in a]
@@ -118,6 +121,10 @@ def _round_spec(rng: random.Random, typ: str, origin: List[float]) -> dict:
     rdir = [math.cos(ang) * u[i] + math.sin(ang) * w[i] for i in range(3)]
     r1 = _dy(rng, 0.5, 2.0, 8)
     length = _dy(rng, 0.5, 3.0, 8)
+    if small:
+        r1 = rng.choice([1 / 64, 1 / 128])
+        length = r1 * _dy(rng, 2, 8, 8)
+        origin = [rng.choice([-1, 1]) * _dy(rng, 400, 1500, 1) for _ in range(3)]
     p1 = [origin[i] + _dy(rng, -1, 1, 8) for i in range(3)]
     spec = {"type": typ, "p1": p1, "axis": axis, "rdir": rdir, "r1": r1, "length": length}
     if typ == "Frustum":
@@ -170,7 +177,7 @@ def _build_round(spec: dict):
         raise ValueError(typ)
     extra = []
     if spec.get("chain"):
-        extra.append(cb.Cylinder.chain(shape, 1.0))
+        extra.append(cb.Cylinder.chain(shape, 2.0 * spec["r1"]))
     return shape, extra
 
 
@@ -318,8 +325,8 @@ def _ring(rng: random.Random) -> dict:
         centre = obs + dist * (math.cos(theta) * a + math.sin(theta) * b) + _dy(rng, -0.5, 0.5, 8) * np.array(up, dtype=float)
         kind = rng.choice(["box", "warped", "frustum", "rotated", "par"])
         pts = np.array(_hex(rng, kind))
-        pts = pts - pts.mean(axis=0) + np.round(centre * 64) / 64
-        pts = np.round(pts * 2**20) / 2**20
+        pts = (pts - pts.mean(axis=0)) * rng.choice([1.0, 1.0, 2.0**-8, 2.0**-10]) + np.round(centre * 64) / 64
+        pts = np.round(pts * 2**30) / 2**30
         blocks.append({"hex": kind, "pts": pts.tolist(), "num": list(rng.choice(SYM48))})
     return {"kind": "reorient-seq", "obs": obs.tolist(), "ceil": ceil.tolist(), "blocks": blocks}
 
@@ -470,11 +477,13 @@ class C18(core.Check):
             )
         types = ["Cylinder", "SemiCylinder", "Frustum", "Elbow", "ExtrudedRing", "OneCoreDisk", "QuarterDisk"]
         for n in range(21 if quick else 280):
-            cases.append({"kind": "shape", "round": _round_spec(rng, types[n % len(types)], [0.0, 0.0, 0.0])})
+            small = n % 3 == 2
+            cases.append({"kind": "shape", "round": _round_spec(rng, types[(n // 3 if small else n) % len(types)], [0.0, 0.0, 0.0], small)})
         kinds = ["box", "warped", "par", "frustum", "rotated", "warped"]
         for n in range(28 if quick else 400):
             kind = kinds[n % len(kinds)]
-            pts = _hex(rng, kind)
+            scale = rng.choice([1.0, 1.0, 1.0, 2.0**-8, 2.0**-10, 2.0**5])  # millimetre-sized blocks in metres, and big ones
+            pts = [[c * scale for c in p] for p in _hex(rng, kind)]
             obs, ceil = _viewpoint(rng, pts, rng.choice(["face-on", "face-on", "anywhere", "anywhere", "edge-on"]))
             if quick and n % 4:  # a sample of the 48 (identity, a mirrored one, 10 others) and 4 scrambles
                 nums = [list(SYM48[0]), list(rng.choice(SYM48[1:]))] + [list(p) for p in rng.sample(SYM48, 10)]
@@ -482,7 +491,9 @@ class C18(core.Check):
                 nums += [rng.sample(range(8), 8) for _ in range(4)]
             else:  # all 48 initial numberings and 8 arbitrary scrambles of the eight points
                 nums = [list(p) for p in SYM48] + [rng.sample(range(8), 8) for _ in range(8)]
-            cases.append({"kind": "reorient", "hex": kind, "pts": pts, "obs": obs, "ceil": ceil, "numberings": nums})
+            cases.append(
+                {"kind": "reorient", "hex": kind, "pts": pts, "obs": obs, "ceil": ceil, "numberings": nums, "scale": scale}
+            )
         # histories: one re-orienter instance for a ring of blocks around the observer
         for _ in range(8 if quick else 120):
             cases.append(_ring(rng))
@@ -1150,7 +1161,8 @@ class C18(core.Check):
                 + (":some-boundary-skipped" if b else "")
             )
         if case["kind"] == "shape":
-            return "shape:" + case["round"]["type"] + (":chained" if case["round"].get("chain") else "")
+            far = ":thin-far-from-origin" if case["round"]["r1"] < 0.1 else ""
+            return "shape:" + case["round"]["type"] + far + (":chained" if case["round"].get("chain") else "")
         if case["kind"] == "reorient-seq":
             res = impl["results"]
             nclear = sum(1 for b in case["blocks"] if _clear_view(b["pts"], case["obs"], case["ceil"]))
@@ -1163,7 +1175,8 @@ class C18(core.Check):
         clear = "clear" if _clear_view(case["pts"], case["obs"], case["ceil"]) else "dubious"
         tie = ":near-tie" if min(r["gap"] for r in res) < TIE else ""
         other = ":restructured" if any("out" in r and tuple(r["out"]) not in SYM48 for r in res) else ""
-        return f"reorient:{case['hex']}:{clear}:{state}{tie}{other}"
+        size = ":tiny" if case.get("scale", 1.0) < 1e-2 else (":big" if case.get("scale", 1.0) > 2 else "")
+        return f"reorient:{case['hex']}{size}:{clear}:{state}{tie}{other}"
 
 
 if __name__ == "__main__":
